@@ -6,11 +6,13 @@ CONSTANTS
   KeepStatus = FALSE
   RecheckAtApply = TRUE
   RecheckISR = FALSE
+  KeepOnFail = FALSE
   CountAll = FALSE
   InitISRs = {{"r1"}, {"r1", "r2"}, {"r1", "r2", "r3"}, {"r1", "r2", "r3", "r4"}}
   L0 = "r1"
   PairSels = {"cur", "first"}
   MaxOps = 6
+  Faults = FALSE
   MaxPend = 2
 INVARIANTS C07_LeaderInISR
 VIEW MCView
